@@ -250,11 +250,103 @@ func c08RoundTrip(c *explore.Ctx, sig string, info *gtab.Info, tp gtab.Type, des
 		c.Fail("C08.roundtrip", sig, "Read(Encode(x)) fails: %v (%d bytes); %v", err, len(enc), desc)
 		return
 	}
-	if reflect.DeepEqual(info, back) || cmp.Equal(info, back, c08cmp...) {
+	if !(reflect.DeepEqual(info, back) || cmp.Equal(info, back, c08cmp...)) {
+		if d := cmp.Diff(info, back, c08cmp...); d != "" {
+			c.Fail("C08.roundtrip", sig+" / "+diffSig(d), "the structure differs after Encode/Read (%d bytes); %v:\n%s", len(enc), desc, trimDiff(d))
+			return
+		}
+	}
+	// second generation: what the reader returns (e.g. empty but non-nil rule sets, normalised
+	// coverage and class tables) is a structure the library can represent, too
+	for li, l := range back.LookupList {
+		for si, st := range l.Subtables {
+			var d, e int
+			if p := guard(func() { d, e = gtab.VerifSubtableSizes(st) }); p != "" {
+				c.Fail("C08.sizes", sig+fmt.Sprintf(" / re-read %T", st), "lookup %d subtable %d (%T) as returned by Read: the encoder panics: %s; %v", li, si, st, p, desc)
+				continue
+			}
+			if d != e {
+				c.Fail("C08.sizes", sig+fmt.Sprintf(" / re-read %T", st), "lookup %d subtable %d (%T) as returned by Read: encodeLen()=%d but encode() emits %d bytes; %v", li, si, st, d, e, desc)
+			}
+		}
+	}
+	var enc2 []byte
+	if p := guard(func() { enc2 = back.Encode() }); p != "" {
+		c.Fail("C08.roundtrip", sig+" / second generation", "Encode(Read(Encode(x))) panics: %s; %v", p, desc)
 		return
 	}
-	if d := cmp.Diff(info, back, c08cmp...); d != "" {
-		c.Fail("C08.roundtrip", sig+" / "+diffSig(d), "the structure differs after Encode/Read (%d bytes); %v:\n%s", len(enc), desc, trimDiff(d))
+	back2, err := gtab.Read(bytes.NewReader(enc2), tp)
+	if err != nil {
+		c.Fail("C08.roundtrip", sig+" / second generation", "Read(Encode(Read(Encode(x)))) fails: %v (%d bytes, first generation %d bytes); %v", err, len(enc2), len(enc), desc)
+		return
+	}
+	if !(reflect.DeepEqual(back, back2) || cmp.Equal(back, back2, c08cmp...)) {
+		c.Fail("C08.roundtrip", sig+" / second generation", "the structure differs after a second Encode/Read (%d bytes); %v:\n%s", len(enc2), desc, trimDiff(cmp.Diff(back, back2, c08cmp...)))
+	}
+}
+
+// c08RuleSetShape varies the rule-set lists of the format 1 and 2 contextual subtables: shape 1 makes
+// every set without rules an empty, non-nil list (what the reader returns for a set with zero rules);
+// shape 2 duplicates the rule (with its input shortened by one where possible) and gives every
+// class / covered glyph a set.
+func c08RuleSetShape(sub gtab.Subtable, shape int) {
+	if shape == 0 {
+		return
+	}
+	switch st := sub.(type) {
+	case *gtab.SeqContext1:
+		c08Shape(&st.Rules, shape, func(r *gtab.SeqRule) *gtab.SeqRule {
+			q := *r
+			q.Input = shorten(r.Input)
+			return &q
+		})
+	case *gtab.SeqContext2:
+		c08Shape(&st.Rules, shape, func(r *gtab.ClassSeqRule) *gtab.ClassSeqRule {
+			q := *r
+			q.Input = shorten(r.Input)
+			return &q
+		})
+	case *gtab.ChainedSeqContext1:
+		c08Shape(&st.Rules, shape, func(r *gtab.ChainedSeqRule) *gtab.ChainedSeqRule {
+			q := *r
+			q.Input = shorten(r.Input)
+			return &q
+		})
+	case *gtab.ChainedSeqContext2:
+		c08Shape(&st.Rules, shape, func(r *gtab.ChainedClassSeqRule) *gtab.ChainedClassSeqRule {
+			q := *r
+			q.Input = shorten(r.Input)
+			return &q
+		})
+	}
+}
+
+func shorten[T any](in []T) []T {
+	if len(in) == 0 {
+		return nil
+	}
+	return append([]T{}, in[:len(in)-1]...)
+}
+
+func c08Shape[R any](sets *[][]*R, shape int, variant func(*R) *R) {
+	var proto *R
+	for _, set := range *sets {
+		if len(set) > 0 {
+			proto = set[0]
+		}
+	}
+	if proto == nil {
+		return
+	}
+	for i, set := range *sets {
+		switch {
+		case shape == 1 && len(set) == 0:
+			(*sets)[i] = []*R{}
+		case shape == 2 && len(set) == 0:
+			(*sets)[i] = []*R{variant(proto)}
+		case shape == 2:
+			(*sets)[i] = append(set, variant(proto))
+		}
 	}
 }
 
@@ -284,8 +376,11 @@ func c08Lookups(r *run.Run) {
 				if form >= 3 {
 					t = chainType
 				}
-				ll = append(ll, gen.MakeLookup(t, f, []gtab.Subtable{gen.Context(form, pat, actions)}))
-				desc = append(desc, gen.ContextForms[form]+" "+pat.Name+" "+f.Name)
+				sub := gen.Context(form, pat, actions)
+				shape := c.Choose(3, "rule sets")
+				c08RuleSetShape(sub, shape)
+				ll = append(ll, gen.MakeLookup(t, f, []gtab.Subtable{sub}))
+				desc = append(desc, gen.ContextForms[form]+" "+pat.Name+" "+f.Name+[]string{"", " (other rule sets empty, not nil)", " (two rules per set, all classes)"}[shape])
 			} else {
 				k := c.Choose(len(menu), "lookup")
 				ll = append(ll, gen.MakeLookup(menu[k].Type, f, menu[k].Sub()))
